@@ -379,6 +379,14 @@ def bool_edges(body, value_site=None, value_expr_pred=None):
         es = e.strip() if e.k in ("field", "ref", "deref", "cast", "phi") else e      # the value seen through `Ok(v)?`, borrows, copies
         if value_site is not None and (e.x.get("site") == value_site or (es.k == "call" and es.x.get("site") == value_site)):
             hit = True
+        if not hit and value_site is not None and es.k == "phi":
+            # `matches!(x, PAT if v)` / `PAT && v`: false on the paths where the pattern does not match, v otherwise —
+            # the true edge is taken exactly when v is true there
+            alts = [a_.strip() for a_ in es.a]
+            vs = [a_ for a_ in alts if a_.x.get("site") == value_site or (a_.k == "call" and a_.x.get("site") == value_site)]
+            rest = [a_ for a_ in alts if a_ not in vs]
+            if len(vs) == 1 and rest and all(a_.k == "const" and const_val(a_) == 0 for a_ in rest):
+                hit = True
         if value_expr_pred is not None and value_expr_pred(e):
             hit = True
         if not hit:
